@@ -17,10 +17,11 @@ from harness.core import Broken, Ctx, Failure, LeanDriver, Prop, Result
 
 PORT = 5000
 PEER_PORT = 5100
-NAMES = {1: "a", 2: "b-1", 3: "c_(2)", 4: "y" * 63}
+NAMES = {1: "a", 2: "b-1", 3: "c_(2)", 4: "y" * 63,
+         5: "A", 6: "aa", 7: "a_", 8: "(a)"}      # related names: case, prefix / suffix of "a" (must be distinct objects)
 IDX = {v: k for k, v in NAMES.items()}
 IDX["$context"] = 0
-INVALID = ["", "bad name", "x.y", "$x", "z" * 64, "a/b", "naïve"]
+INVALID = ["", "bad name", "x.y", "$x", "z" * 64, "a/b", "naïve", "a ", " a", "a.b", "a$", "$context", "a\tb", "y" * 63 + "-"]
 RPC_TIMEOUT = 20.0
 
 
@@ -46,6 +47,8 @@ class CtxRec:
         self.task_threads = []
         self.hcalls = []
         self.events = []
+        self.left_open = []       # instruments released while open (release order)
+        self.objs = []            # (manager id, object) of every constructed test object
 
 
 class Rec:
@@ -59,6 +62,11 @@ class Rec:
         self.world = None
         self.cur_op = -1
         self.flags = {}
+        self.mevents = []         # layer D: (worker thread, event string) in linearisation order
+        self.reqids = {}
+
+    def rid(self, message) -> int:
+        return self.reqids.setdefault(message.request_id, len(self.reqids) + 1)
 
     def of(self, ctx) -> CtxRec:
         r = self.by_ctx.get(id(ctx))
@@ -95,6 +103,16 @@ def classes():
 
     def enter(obj):
         obj._c12 = REC.cur
+        REC.cur[0].objs.append((REC.cur[1], obj))
+
+    def ev(obj, what):
+        rec, mid = obj._c12
+        rec.events.append(f"{what}:{mid}")
+
+    def raising(obj):
+        if obj.spec["relF"]:
+            ev(obj, "relexc")
+            raise (BaseBoom if obj.spec.get("relBase") else Boom)("release")
 
     def released(obj):
         rec, mid = obj._c12
@@ -125,8 +143,7 @@ def classes():
         def release_rpc_object(self):
             released(self)
             super().release_rpc_object()
-            if self.spec["relF"]:
-                raise (BaseBoom if self.spec.get("relBase") else Boom)("release")
+            raising(self)
 
     class Instr(QMI_Instrument):
         def __init__(self, context, name, spec):
@@ -151,9 +168,11 @@ def classes():
 
         def release_rpc_object(self):
             released(self)
-            super().release_rpc_object()
-            if self.spec["relF"]:
-                raise (BaseBoom if self.spec.get("relBase") else Boom)("release")
+            if self._is_open:
+                ev(self, "warn")
+                self._c12[0].left_open.append(self._c12[1])
+            super().release_rpc_object()      # QMI_Instrument: warns, does not close
+            raising(self)
 
     class Task(QMI_Task):
         def __init__(self, task_runner, name, spec):
@@ -179,11 +198,14 @@ def classes():
 
         def release_rpc_object(self):
             released(self)
+            if not self._joined:
+                ev(self, "tstop")
             try:
-                super().release_rpc_object()
-            finally:
-                if self.spec["relF"]:
-                    raise (BaseBoom if self.spec.get("relBase") else Boom)("release")
+                super().release_rpc_object()  # QMI_TaskRunner: stop() + join() unless joined; join() re-raises a failed run()
+            except BaseException:
+                ev(self, "relexc")
+                raise
+            raising(self)
 
     _CLS = dict(Boom=Boom, BaseBoom=BaseBoom, Obj=Obj, Instr=Instr, Task=Task, Runner=Runner)
     return _CLS
@@ -221,6 +243,8 @@ def taps():
                 REC.cur = (rec, mid)
                 return rpc_object_maker()
             orig(self, address, context, maker)
+            if REC.flags.get("calltrace"):
+                self._stop_lock = LogLock(self._stop_lock, self)
             _gate("after_reserve")
         return __init__
 
@@ -239,6 +263,8 @@ def taps():
                 return orig(self)
             finally:
                 self._c12_rec.events.append(("join:%d" if (th is None or _done(th)) else "nojoin:%d") % self._c12_id)
+                if REC.flags.get("calltrace") and th is not None and _done(th) and getattr(th, "_c12_rejecting", False):
+                    REC.mevents.append((th, "exit", "ok"))
         return stop
 
     def mk_make_proxy(orig):
@@ -315,6 +341,79 @@ def taps():
     had = "release_rpc_object" in _ContextRpcObject.__dict__
     if not had:
         _ContextRpcObject.release_rpc_object = ctx_release
+    # ---- layer D taps (active only when REC.flags["calltrace"]): every event is logged at its linearisation point ----
+    import collections
+    from qmi.core.rpc import _RpcThread
+    from qmi.core.exceptions import QMI_MessageDeliveryException
+
+    class LogDeque(collections.deque):
+        def __init__(self, thread):
+            super().__init__()
+            self._c12_thread = thread
+
+        def append(self, msg):
+            REC.mevents.append((self._c12_thread, f"deliver {REC.rid(msg)}", "pushed"))
+            return super().append(msg)
+
+        def popleft(self):
+            msg = super().popleft()
+            kind = "reject" if getattr(self._c12_thread, "_c12_rejecting", False) else "exec"
+            REC.mevents.append((self._c12_thread, f"{kind} {REC.rid(msg)}", "ok"))
+            return msg
+
+    class LogLock:
+        """`_stop_lock` wrapper: logs `stopflag` while the lock is still held by the block that cleared `_running`"""
+        def __init__(self, inner, mgr):
+            self._inner, self._mgr = inner, mgr
+
+        def __enter__(self):
+            r = self._inner.__enter__()
+            self._was = self._mgr._running
+            return r
+
+        def __exit__(self, *a):
+            if self._was and not self._mgr._running:
+                REC.mevents.append((self._mgr._rpc_thread, "stopflag", "ok"))
+            return self._inner.__exit__(*a)
+
+    def mk_tinit_rpc(orig):
+        def __init__(self, *a, **k):
+            orig(self, *a, **k)
+            if REC is not None and REC.flags.get("calltrace"):
+                self._fifo = LogDeque(self)
+        return __init__
+
+    def mk_reject(orig):
+        def _reject_remaining_requests(self):
+            if REC is not None and REC.flags.get("calltrace"):
+                self._c12_rejecting = True
+                REC.mevents.append((self, "see", "ok"))
+            return orig(self)
+        return _reject_remaining_requests
+
+    def mk_handle(orig):
+        def handle_message(self, message):
+            try:
+                return orig(self, message)
+            except QMI_MessageDeliveryException:
+                if REC is not None and REC.flags.get("calltrace") and hasattr(message, "request_id"):
+                    REC.mevents.append((getattr(self, "_c12_thread", None), f"deliver {REC.rid(message)}", "refused"))
+                raise
+        return handle_message
+
+    def _sr_get(self):
+        return self.__dict__.get("_c12_sr", False)
+
+    def _sr_set(self, v):
+        if v and not self.__dict__.get("_c12_sr", False) and REC is not None and REC.flags.get("calltrace"):
+            REC.mevents.append((self, "shutdown", "ok"))
+        self.__dict__["_c12_sr"] = v
+    had_sr = "_shutdown_requested" in _RpcThread.__dict__
+    if not had_sr:
+        _RpcThread._shutdown_requested = property(_sr_get, _sr_set)
+    wrap(_RpcThread, "__init__", mk_tinit_rpc)
+    wrap(_RpcThread, "_reject_remaining_requests", mk_reject)
+    wrap(RpcObjectManager, "handle_message", mk_handle)
     wrap(RpcObjectManager, "__init__", mk_init)
     wrap(RpcObjectManager, "start", mk_start)
     wrap(RpcObjectManager, "stop", mk_stop)
@@ -334,6 +433,8 @@ def taps():
             setattr(cls, name, orig)
         if not had:
             del _ContextRpcObject.release_rpc_object
+        if not had_sr:
+            del _RpcThread._shutdown_requested
 
 
 def _gate(pos: str) -> None:
@@ -449,8 +550,15 @@ def observe(ctx, ev0: int) -> str:
     rec = REC.of(ctx)
     tr, tp, tt = thread_counts(rec)
     ev = [e for e in rec.events[ev0:]]
+    lo = _join(map(str, rec.left_open))
+    for mid, o in rec.objs:
+        tr_ = getattr(o, "_tr", None)
+        if tr_ is not None:
+            dead = _done(getattr(rec.mgrs[mid], "_c12_thread", None)) if mid < len(rec.mgrs) else True
+            if dead and (tr_.is_open != (mid in rec.left_open)):
+                lo += f"!transport-of-{mid}-{'open' if tr_.is_open else 'closed'}"
     return (f"a={int(ctx._active)} u={int(ctx._used)} t={int(ctx._message_router.tcp_server_port != 0)} "
-            f"{residue_s(ctx, rec)} thr={tr},{tp},{tt} rel={_join(map(str, rec.rel))} "
+            f"{residue_s(ctx, rec)} thr={tr},{tp},{tt} rel={_join(map(str, rec.rel))} lo={lo} "
             f"hc={_join(map(str, rec.hcalls))} ev={_join(ev)}" + stray_s())
 
 
@@ -932,6 +1040,107 @@ def run_conc(seed, cfg_tcp: bool, pop_ops, mk, gate=None, until="stopped", polic
     return _finish(tr, _run(seed, body, policy=policy, change_points=change_points))
 
 
+def run_mm(seed, cfg_tcp: bool, pop_ops, mk1, mk2, policy="weighted", change_points=None) -> Trace:
+    """two threads call make_* at the same time (same or different names)"""
+    tr = Trace()
+    tr.obs_pending = None
+
+    def body(w):
+        REC.world = w
+        r = Runner1(w, cfg_tcp)
+        tr.lines.append(f"new {int(cfg_tcp)}")
+        r.new()
+        tr.impl.append("ok | " + observe(r.ctx, 0))
+        tr.obs.append({"op": ["new"], "out": "ok"})
+        for op in [["start", 0, 0]] + list(pop_ops):
+            tr.lines.append(op_line(op))
+            tr.obs_pending = op
+            rec = REC.of(r.ctx)
+            ev0 = len(rec.events)
+            o = r.do(op)
+            r.quiesce(r.ctx)
+            tr.impl.append(f"{o} | {observe(r.ctx, ev0)}")
+            tr.obs.append({"op": op, "out": o})
+        rec = REC.of(r.ctx)
+        f = lambda mk: f"{mk[1]} {mk[2]} {int(mk[4])} {int(mk[5])} {mk[6]}"
+        tr.lines.append(f"conc2 {f(mk1)} {f(mk2)}")
+        tr.conc.append(len(tr.lines) - 1)
+        tr.obs_pending = ["conc2", mk1, mk2]
+        r2 = Runner1(w, cfg_tcp)
+        r2.ctx = r.ctx
+        t1 = w.spawn(lambda: r.do(mk1), "maker")
+        t2 = w.spawn(lambda: r2.do(mk2), "maker")
+        t1.join()
+        t2.join()
+        o1 = t1.value if t1.exc is None else _exc_s(t1.exc)
+        o2 = t2.value if t2.exc is None else _exc_s(t2.exc)
+        line = f"mk1={o1} mk2={o2} {residue_s(r.ctx, rec)} rel={_join(map(str, rec.rel))}" + stray_s()
+        tr.impl.append(line)
+        ob = {"op": ["conc2", mk1, mk2], "mk1": o1, "mk2": o2, "line": line, "out": "ok",
+              "pre": [e.split(":")[0] for e in _lst(parse_state(tr.impl[-2]).get("map"))]}
+        ob["stop"] = r.do(["stop"])
+        ob["thr_end"] = thread_counts(rec)
+        ob["end"] = residue_s(r.ctx, rec)
+        tr.obs.append(ob)
+    return _finish(tr, _run(seed, body, policy=policy, change_points=change_points))
+
+
+def oracle_mm(tr: Trace):
+    if tr.deadlock is not None:
+        return [("mm:hang", f"make ‖ make never completed: {tr.deadlock[:300]}", 0)]
+    ob = tr.obs[-1] if tr.obs else None
+    if ob is None or ob["op"][0] != "conc2":
+        return []
+    bad = []
+    _, mk1, mk2 = ob["op"]
+    if ob.get("stop") != "ok":
+        bad.append((f"mm:final-stop-raises:{str(ob.get('stop'))[4:]}", f"stop() after make ‖ make: {ob.get('stop')}; {ob['line']}", 0))
+    st = parse_state(ob["line"])
+    mp = dict(e.split(":") for e in _lst(st["map"]))
+    hs = dict(e.split(":") for e in _lst(st["h"]))
+    same = mk1[2] == mk2[2]
+    oks = [o for o in (ob["mk1"], ob["mk2"]) if o == "ok"]
+    taken = [mk for mk in (mk1, mk2) if str(mk[2]) in ob["pre"]]
+    if taken:
+        # a name that was live before both makers started: refused, nothing changes for it
+        for mk, o in ((mk1, ob["mk1"]), (mk2, ob["mk2"])):
+            if mk in taken and o != "exc:QMI_DuplicateNameException":
+                bad.append(("mm:duplicate-name-not-refused", f"make of live name {NAMES[mk[2]]!r}: {o}: {ob['line']}", 0))
+        if "-" in mp.values() or mp != hs or "stray" in st:
+            bad.append(("mm:residue", f"{ob['line']}", 0))
+        if ob["thr_end"] != (0, 0, 0):
+            bad.append(("mm:stop-leaves-threads", f"after the final stop(): {ob['thr_end']} {ob['end']}", 0))
+        return bad
+    if same:
+        if len(oks) > 1:
+            bad.append(("mm:two-objects-one-name", f"both makers of {NAMES[mk1[2]]!r} succeeded: {ob['line']}", 0))
+        if not mk1[4] and not mk2[4] and len(oks) != 1:
+            bad.append(("mm:no-winner", f"two good makers of one free name, none or both won: {ob['line']}", 0))
+        if not mk1[4] and not mk2[4] and sorted([ob["mk1"], ob["mk2"]]) != ["exc:QMI_DuplicateNameException", "ok"]:
+            bad.append(("mm:loser-not-duplicate", f"{ob['line']}", 0))
+    else:
+        for mk, o in ((mk1, ob["mk1"]), (mk2, ob["mk2"])):
+            if (o == "ok") != (not mk[4]):
+                bad.append(("mm:independent-make-fails", f"make of another free name: {o}: {ob['line']}", 0))
+    for mk, o in ((mk1, ob["mk1"]), (mk2, ob["mk2"])):
+        live = str(mk[2]) in mp and mp[str(mk[2])] != "-"
+        if same:
+            continue
+        if live != (o == "ok"):
+            bad.append(("mm:name-state", f"name {mk[2]} live={live} although make returned {o}: {ob['line']}", 0))
+    if same and ((str(mk1[2]) in mp) != bool(oks)):
+        bad.append(("mm:name-state", f"name {mk1[2]} in map={str(mk1[2]) in mp} although results {ob['mk1']}, {ob['mk2']}: {ob['line']}", 0))
+    if "-" in mp.values():
+        bad.append(("mm:reservation-left", f"{ob['line']}", 0))
+    if mp != hs:
+        bad.append(("mm:handlers-differ-from-names", f"{ob['line']}", 0))
+    if "stray" in st:
+        bad.append(("mm:stray-thread", f"{ob['line']}", 0))
+    if ob["thr_end"] != (0, 0, 0):
+        bad.append(("mm:stop-leaves-threads", f"after the final stop(): {ob['thr_end']} {ob['end']}", 0))
+    return bad
+
+
 def run_calls(seed, spec: dict, policy="pct", change_points=None, labels=None) -> Trace:
     """layer D (oracle only): 1-3 managed caller threads — in the context itself or in a connected peer context — issue
     blocking calls (rpc_timeout=None) through proxies while the main thread removes the object / stops the context.
@@ -943,6 +1152,7 @@ def run_calls(seed, spec: dict, policy="pct", change_points=None, labels=None) -
         from harness import detsched as D
         from qmi.core.context import QMI_Context
         REC.world = w
+        REC.flags["calltrace"] = True
         if labels is not None:
             orig_yp = w.sched.yield_point
 
@@ -1019,6 +1229,20 @@ def run_calls(seed, spec: dict, policy="pct", change_points=None, labels=None) -
     tr.deadlock = out.deadlock or ("step budget exceeded" if out.budget else None)
     tr.error = out.error
     tr.calls = out.value
+    # trace refinement input: the events of every worker thread, in the order they happened, against Mgr.mstep
+    by_thread = {}
+    for th, ev, res in REC.mevents:
+        if th is not None:
+            by_thread.setdefault(id(th), (th, []))[1].append((ev, res))
+    for th, evs in by_thread.values():
+        tr.lines.append("mnew")
+        tr.impl.append("ok")
+        for ev, res in evs:
+            tr.lines.append("m " + ev)
+            tr.impl.append(res)
+        if tr.deadlock is None:
+            tr.lines.append("mend")
+            tr.impl.append(f"exited={int(_done(th))} fifo={len(th._fifo)} unanswered=0")
     tr.steps = out.sched.steps
     tr.partial = [(wh, list(o)) for wh, o in (getattr(out.value, "get", lambda *_: [])("calls") or [])] if out.value else None
     return tr
@@ -1086,6 +1310,8 @@ def gen_make(rng, fault_bias=0.25, names=(1, 2, 3, 4), invalid=0.12):
         n, namestr = 9, rng.choice(INVALID)
     else:
         n = rng.choice(names)
+        if names == (1, 2, 3, 4) and rng.random() < 0.12:
+            n = rng.choice([5, 6, 7, 8])
         namestr = NAMES[n]
     return ["make", kind, n, namestr, int(rng.random() < fault_bias), int(rng.random() < 0.3),
             rng.choice(["loop", "loop", "raise", "finish"]), int(rng.random() < 0.3)]
@@ -1093,7 +1319,7 @@ def gen_make(rng, fault_bias=0.25, names=(1, 2, 3, 4), invalid=0.12):
 
 def gen_op(rng):
     r = rng.random()
-    n = rng.choice([1, 2, 3, 4])
+    n = rng.choice([1, 2, 3, 4]) if rng.random() < 0.88 else rng.choice([5, 6, 7, 8])
     if r < 0.36:
         return gen_make(rng)
     if r < 0.50:
@@ -1413,7 +1639,7 @@ def oracle_singleton(tr: Trace):
                     if out != "ok":
                         bad.append(("qstart-fails", f"fault-free qmi.start(): {out}", i))
                     else:
-                        single = True
+                        single, pending = True, None
                 else:
                     if out == "ok":
                         bad.append(("start-fault-ignored", f"qmi.start() returned ok although {fk} failed", i))
@@ -1494,6 +1720,9 @@ def run_case(case: dict) -> Trace:
         return run_conc(case["seed"], case["cfg_tcp"], case["pop"], case["mk"], gate=case.get("gate"),
                         until=case.get("until", "stopped"), policy=case.get("policy", "weighted"),
                         change_points=case.get("change_points"))
+    if k == "mm":
+        return run_mm(case["seed"], case["cfg_tcp"], case["pop"], case["mk1"], case["mk2"], policy=case.get("policy", "weighted"),
+                      change_points=case.get("change_points"))
     if k == "calls":
         return run_calls(case["seed"], case["spec"], policy=case.get("policy", "pct"), change_points=case.get("change_points"))
     raise ValueError(case)
@@ -1502,12 +1731,14 @@ def run_case(case: dict) -> Trace:
 def oracle(case: dict, tr: Trace):
     if case["kind"] == "calls":
         return oracle_calls(case["spec"], tr)
+    if case["kind"] == "mm":
+        return oracle_mm(tr)
     return {"hist": oracle_history, "single": oracle_singleton, "conc": oracle_conc}[case["kind"]](tr)
 
 
 def shrink(case: dict, sig: str, budget: int = 60) -> dict:
     """greedy deletion of operations while the same clause still fails"""
-    key = {"hist": "ops", "single": "ops", "conc": "pop"}[case["kind"]]
+    key = {"hist": "ops", "single": "ops", "conc": "pop", "mm": "pop"}[case["kind"]]
     cur = dict(case)
     ops = list(cur[key])
     i = 0
@@ -1543,6 +1774,18 @@ DIRECTED_HIST = [
              ["tstart", 1], ["tjoin", 1], ["remove", 1], ["make", "instr", 1, "a", 0, 0, "loop", 0], ["make", "rpc", 1, "a", 0, 0, "loop", 0],
              ["remove", 1], ["call", 1], ["make", "rpc", 1, "a", 1, 0, "loop", 0], ["make", "rpc", 1, "a", 0, 0, "loop", 0], ["stop"], ["probe"]]),
     (True, [["make", "rpc", 1, "a", 0, 0, "loop", 0], ["get", 1, "rpc"], ["stop"], ["start", 0, 0], ["addh", "base"], ["stop"], ["stop"], ["probe"]]),
+    # related names (case, prefix, suffix, brackets) are different objects; the same operation twice; unusual order
+    (True, [["start", 0, 0], ["make", "rpc", 1, "a", 0, 0, "loop", 0], ["make", "instr", 5, "A", 0, 0, "loop", 0],
+            ["make", "task", 6, "aa", 0, 0, "loop", 0], ["make", "rpc", 7, "a_", 0, 1, "loop", 0], ["make", "rpc", 8, "(a)", 0, 0, "loop", 0],
+            ["make", "rpc", 1, "a", 0, 0, "loop", 0], ["make", "rpc", 5, "A", 1, 0, "loop", 0], ["remove", 1], ["remove", 1], ["call", 1],
+            ["call", 5], ["call", 6], ["get", 1, "rpc"], ["get", 7, "rpc"], ["iopen", 5], ["iopen", 5], ["iclose", 5], ["iclose", 5], ["iopen", 5],
+            ["tstart", 6], ["make", "rpc", 1, "a", 0, 0, "loop", 0], ["remove", 6], ["remove", 7], ["call", 7], ["call", 8],
+            ["make", "task", 9, "a ", 0, 0, "loop", 0], ["make", "rpc", 9, "$context", 0, 0, "loop", 0], ["make", "rpc", 9, "y" * 63 + "-", 0, 0, "loop", 0],
+            ["removeForeign"], ["stop"], ["stop"], ["remove", 1], ["call", 5], ["get", 5, "instr"], ["probe"]]),
+    # operations before start and a failed start followed by a successful retry, a second failure, then normal life
+    (True, [["make", "rpc", 1, "a", 0, 0, "loop", 0], ["remove", 1], ["call", 1], ["tstart", 1], ["addh", "exc"], ["stop"],
+            ["start", 1, 0], ["start", 0, 1], ["start", 1, 1], ["make", "rpc", 1, "a", 0, 0, "loop", 0], ["start", 0, 0], ["start", 0, 0],
+            ["make", "instr", 1, "a", 0, 1, "loop", 0], ["iopen", 1], ["stop"], ["start", 0, 0], ["probe"]]),
     # tasks joined before / after they ran, joined twice, started after the join (found by the thorough tier: model repaired)
     (False, [["start", 0, 0], ["make", "task", 1, "a", 0, 0, "raise", 0], ["tjoin", 1], ["tjoin", 1], ["tstart", 1],
              ["make", "task", 2, "b-1", 0, 1, "raise", 0], ["tstart", 2], ["tjoin", 2], ["tjoin", 2], ["tstart", 2],
@@ -1570,12 +1813,10 @@ class C12(Prop):
     modelled_not_verified = [
         "real thread teardown by the OS (observed through the scheduler's done flags and threading.enumerate(), not proved)",
         "the sockets: TCP/UDP bind, listen, connect are the in-memory simnet; the UDP port cannot be busy on the real OS with SO_REUSEADDR (fault injected by a patched bind)",
-        "is_valid_object_name is an input flag of the model (checked differentially against an independent statement of the rule)",
+        "is_valid_object_name is an input flag of the model (checked differentially against an independent statement of the rule, incl. related names: case, prefix, suffix, 63/64 characters)",
         "SignalManager.handle_object_removed (C08) and the `$pubsub` handler, which stays registered after stop(), are not modelled",
-        "QMI_Instrument.release_rpc_object only warns: an instrument open at stop() keeps its transport open (modelled as is, not part of the statement)",
-        "a stop handler raising a non-Exception BaseException aborts stop() (modelled as is: `stop` with `.base`; excluded from the oracle: the statement's 'raise' is read as Exception)",
-        "stop ‖ make is modelled at lock granularity; outcomes are compared as sets (membership), not by trace refinement",
-        "calls racing remove()/stop() (the `_running` test and the push under `_stop_lock`) are not in the Lean model: explored schedules + oracle only (C01 models that path)",
+        "the router / socket path of a *remote* call racing remove()/stop() is explored + oracle only (C01, C06 model it); the manager/worker part is modelled and trace-refined",
+        "stop ‖ make and make ‖ make outcomes are compared as sets (membership in the model's outcome set), not by trace refinement",
     ]
 
     # -- helpers ----------------------------------------------------------------
@@ -1619,10 +1860,12 @@ class C12(Prop):
                 for e in _lst(pop.get("m")):
                     res.count("at_stop_" + ":".join(e.split(":")[1:]))
                 res.count("stops_with_%d_objects" % min(len(_lst(pop.get("m"))) - 1, 4))
+            if k == "conc2":
+                res.count("make_make_outcome %s / %s%s" % (ob.get("mk1"), ob.get("mk2"), " (same name)" if op[1][2] == op[2][2] else ""))
             if k == "conc":
                 res.count("conc_outcome mk=%s st=%s" % (ob.get("mk"), ob.get("st")))
                 res.count("conc_gate_%s_%s" % (case.get("gate"), case.get("until")))
-        nontrivial = any(ob["op"][0] in ("stop", "qstop", "conc", "remove") or (ob["op"][0] in ("start", "qstart") and ob["out"] != "ok")
+        nontrivial = any(ob["op"][0] in ("stop", "qstop", "conc", "conc2", "remove") or (ob["op"][0] in ("start", "qstart") and ob["out"] != "ok")
                          for ob in tr.obs if "out" in ob or ob["op"][0] == "conc")
         res.note_case((kind, repr({k: v for k, v in case.items() if k != "seed"})), nontrivial=nontrivial)
         # the property oracle, directly on the implementation trace
@@ -1639,6 +1882,7 @@ class C12(Prop):
     def _calls(self, res: Result, ctx: Ctx, seeds, stride: int, randoms: int, seed0: int) -> int:
         """layer D: calls through proxies racing remove()/stop() (oracle only; no model lines)"""
         n = 0
+        mbatch = []
         for fi, fam in enumerate(CALL_FAMILIES):
             spec = dict(fam, pop=CALL_POP)
             runs = []
@@ -1651,8 +1895,10 @@ class C12(Prop):
                 if tr.error is not None:
                     raise tr.error
                 n += 1
+                mbatch.append((case, tr))
                 res.traces_validated += 1
                 res.count("scenarios_calls")
+                res.count("manager_worker_events", sum(1 for l in tr.lines if l.startswith("m ")))
                 res.count(f"calls_family_{fam['action']}_" + "+".join(c["where"] for c in fam["callers"]))
                 if tr.calls is not None:
                     for _wh, outs in tr.calls["calls"]:
@@ -1666,6 +1912,19 @@ class C12(Prop):
                     self._seen[sig] = 1
                     res.failures.append(Failure(signature=sig, summary=f"{sig}: {det[:400]} | case={_short(case)}",
                                                 replay={**case, "expect": sig}))
+        # trace refinement of the manager/worker events against Mgr.mstep (Model/ContextCalls.lean)
+        lines = [l for _c, tr in mbatch for l in tr.lines]
+        model = LeanDriver(self.driver).run(lines) if lines else []
+        k = 0
+        for case, tr in mbatch:
+            for j, (l, a) in enumerate(zip(tr.lines, tr.impl)):
+                if a != model[k + j]:
+                    if sum(1 for x in res.broken if x.name.startswith("Mgr.mstep")) < 4:
+                        res.broken.append(Broken("correspondence", "Mgr.mstep vs RpcObjectManager/_RpcThread",
+                                                 f"event {j} `{l}`: impl {a!r} model {model[k + j]!r}; trace: {tr.lines[max(0, j - 10):j + 1]}",
+                                                 case=case))
+                    break
+            k += len(tr.lines)
         return n
 
     def _diff(self, res: Result, batch: list) -> None:
@@ -1718,25 +1977,32 @@ class C12(Prop):
         for ops in DIRECTED_SINGLE:
             case = {"kind": "single", "seed": seed0 + n, "ops": ops}
             self._add(res, batch, case, run_case(case)); n += 1
-        for _ in range(ctx.scale(2200, 12000)):
+        for _ in range(ctx.scale(1400, 12000)):
             cfg_tcp, ops = gen_history(rng, ctx.scale(10, 16))
             case = {"kind": "hist", "seed": seed0 + n, "cfg_tcp": cfg_tcp, "ops": ops,
                     "policy": "pct" if rng.random() < 0.2 else "weighted"}
             self._add(res, batch, case, run_case(case)); n += 1
         ctx.log(f"layer A done: {n} scenarios")
-        for _ in range(ctx.scale(700, 4000)):
+        for _ in range(ctx.scale(500, 4000)):
             case = {"kind": "single", "seed": seed0 + n, "ops": gen_singleton(rng, ctx.scale(5, 8))}
             self._add(res, batch, case, run_case(case)); n += 1
         ctx.log(f"layer B done: {n} scenarios")
-        for _ in range(ctx.scale(70, 450)):
+        for _ in range(ctx.scale(55, 450)):
             cfg_tcp, pop, mk = gen_population(rng)
             combos = [(g, u) for g in GATES for u in UNTIL if g is not None] + [(None, "stopped")] * ctx.scale(3, 8)
             for g, u in combos:
                 case = {"kind": "conc", "seed": seed0 + n, "cfg_tcp": cfg_tcp, "pop": pop, "mk": mk, "gate": g, "until": u,
                         "policy": "pct" if (g is None and rng.random() < 0.5) else "weighted"}
                 self._add(res, batch, case, run_case(case)); n += 1
+        for _ in range(ctx.scale(24, 300)):
+            cfg_tcp, pop, mk1 = gen_population(rng)
+            mk2 = gen_make(rng, 0.2, names=(mk1[2], mk1[2], 3), invalid=0.0)
+            for j in range(ctx.scale(5, 10)):
+                case = {"kind": "mm", "seed": seed0 + n, "cfg_tcp": cfg_tcp, "pop": pop, "mk1": mk1, "mk2": mk2,
+                        "policy": "pct" if j % 2 else "weighted"}
+                self._add(res, batch, case, run_case(case)); n += 1
         ctx.log(f"layer C done: {n} scenarios")
-        n += self._calls(res, ctx, seeds=range(ctx.scale(1, 3)), stride=ctx.scale(8, 2), randoms=ctx.scale(5, 40), seed0=seed0 + 500000)
+        n += self._calls(res, ctx, seeds=range(ctx.scale(1, 3)), stride=ctx.scale(10, 2), randoms=ctx.scale(4, 40), seed0=seed0 + 500000)
         ctx.log(f"layer D done: {n} scenarios")
         self._diff(res, batch)
         for case, tr in batch[:2] + [b for b in batch if b[0]["kind"] == "single"][:1] + [b for b in batch if b[0]["kind"] == "conc"][-1:]:
@@ -1822,6 +2088,9 @@ def _short(case: dict) -> str:
     for key in ("ops", "pop"):
         if key in c:
             c[key] = [[(x if not (isinstance(x, str) and len(x) > 12) else x[:3] + "…") for x in (op if op[0] != "q" else ["q"] + list(op[1]))] for op in c[key]]
+    for key in ("mk1", "mk2"):
+        if key in c:
+            c[key] = [(x if not (isinstance(x, str) and len(x) > 12) else x[:3] + "…") for x in c[key]]
     if "mk" in c:
         c["mk"] = [(x if not (isinstance(x, str) and len(x) > 12) else x[:3] + "…") for x in c["mk"]]
     return repr(c)
